@@ -1266,9 +1266,42 @@ impl<'a> Gen<'a> {
             }
             19 => {
               // no-substitution template: a String argument; the range has the backticks
+              // escapes are cooked as in string literals; an escaped backtick / dollar and a line
+              // continuation are specific to templates
               let inner: String = cooked.chars().filter(|ch| *ch != '`' && *ch != '$').collect();
-              self.expected.push((1, 0, inner.clone()));
-              format!("function f{}() {{ return {}import(`{}`); }}", c, p, inner)
+              let mut written = String::new();
+              let mut value = String::new();
+              let escape_at = if self.rng.chance(40) { Some(self.rng.below(inner.chars().count().max(1))) } else { None };
+              for (i, ch) in inner.chars().enumerate() {
+                if Some(i) == escape_at {
+                  match self.rng.below(6) {
+                    0 if (ch as u32) < 256 => written.push_str(&format!("\\x{:02x}", ch as u32)),
+                    1 if (ch as u32) < 0x10000 => written.push_str(&format!("\\u{:04X}", ch as u32)),
+                    2 => written.push_str(&format!("\\u{{{:x}}}", ch as u32)),
+                    3 => {
+                      written.push_str("\\`");
+                      value.push('`');
+                      written.push(ch);
+                    }
+                    4 => {
+                      written.push_str("\\$");
+                      value.push('$');
+                      written.push(ch);
+                    }
+                    _ => {
+                      written.push('\\');
+                      written.push_str(self.nl);
+                      written.push(ch);
+                    }
+                  }
+                  value.push(ch);
+                } else {
+                  written.push(ch);
+                  value.push(ch);
+                }
+              }
+              self.expected.push((1, 0, value));
+              format!("function f{}() {{ return {}import(`{}`); }}", c, p, written)
             }
             20 => {
               self.expected.push((2, 0, format!("./d{}/\u{1}.js", c)));
